@@ -133,3 +133,31 @@ Definition ucase_prop_ok (c : ucase) : bool :=
                     bool_eqb denied (ref_verdict (uc_entries c) alone_ans)) (uc_obs c).
 Definition ucase_unmodelled (c : ucase) : bool :=
   match match_entries the_shape (uc_entries c) 0 [] with Unmodelled => true | _ => false end.
+
+(* ---- end to end, two lists at once: --deny-domains and --direct-domains with an upstream proxy ---- *)
+Record vcase := {
+  vc_deny : list (bool * rx);         (* [] = the flag is not given *)
+  vc_direct : list (bool * rx);
+  vc_started : bool;                  (* the binary came up with these flags *)
+  vc_obs : list (str * list bool * list bool * N)
+  (* bare target host; Go's regexp verdict of every deny rule / every direct rule alone;
+     0 = denied, 1 = the origin was contacted directly, 2 = the request went to the upstream proxy *)
+}.
+Definition route_code (denied direct : bool) : N := if denied then 0 else if direct then 1 else 2.
+Definition model_hit (es : list (bool * rx)) (host : str) : option bool :=
+  if is_nil es then Some false
+  else match match_entries the_shape es 0 host with Ans a => Some a | _ => None end.
+Definition vcase_model_ok (c : vcase) : bool :=
+  vc_started c &&
+  forallb (fun o => let '(host, _, _, code) := o in
+                    match model_hit (vc_deny c) host, model_hit (vc_direct c) host with
+                    | Some d, Some r => code =? route_code d r
+                    | _, _ => true
+                    end) (vc_obs c).
+Definition ref_hit (es : list (bool * rx)) (alone_ans : list bool) : bool :=
+  if is_nil es then false else ref_verdict es alone_ans.
+Definition vcase_prop_ok (c : vcase) : bool :=
+  vc_started c &&
+  forallb (fun o => let '(_, a_deny, a_direct, code) := o in
+                    (length a_deny =? length (vc_deny c))%nat && (length a_direct =? length (vc_direct c))%nat &&
+                    (code =? route_code (ref_hit (vc_deny c) a_deny) (ref_hit (vc_direct c) a_direct))) (vc_obs c).
